@@ -43,6 +43,8 @@ var families = []struct {
 	{"readers_writer", []string{"rD", "rC", "wB"}},
 	{"writer_reader", []string{"wB", "rC2"}},
 	{"writer_reader_writer", []string{"wB", "rC2", "wD2"}},
+	{"deleter_recreator", []string{"dB", "pC3"}},
+	{"deleter_deleter_reader", []string{"dB", "dD3", "rD"}},
 	{"fees", []string{"fB", "fC", "tD"}},
 	{"mixed", []string{"c1", "rD", "fC", "c2"}},
 	{"reader_only", []string{"rD", "rC"}},
@@ -680,6 +682,7 @@ func run(tier core.Tier) *core.Report {
 	rep.Set("distinct_blocks_produced", len(outcomes))
 	rep.Set("consensus_object", ks)
 	awardHistories(rep, tier)
+	truncFamily(rep, tier)
 	rep.Set("replica_consensus_checks", int(replicaConsensusChecks))
 	rep.Set("transactions_arrived_inside_CalculateBlock", int(arrivalsTotal))
 	rep.Set("bound", fmt.Sprintf("%d pool families, every submission order, every iteration order of the 3 rewritten pool map ranges (site %s: identity+reverse for 4-tx pools in quick)", len(families), sites[1]))
@@ -707,6 +710,18 @@ func replay(c json.RawMessage) (bool, string, error) {
 	}
 	if json.Unmarshal(c, &tc) == nil && tc.T != nil {
 		return replayTimer(*tc.T)
+	}
+	var trc truncCase
+	if json.Unmarshal(c, &trc) == nil && trc.Trunc.Tip > 0 {
+		world.Init()
+		v, skip := runTrunc(trc)
+		if skip != "" {
+			return false, skip, nil
+		}
+		if len(v) > 0 {
+			return true, v[0].Key + ": " + v[0].Summary, nil
+		}
+		return false, "truncate case replayed without violation", nil
 	}
 	var cs Case
 	if err := json.Unmarshal(c, &cs); err != nil {
